@@ -1,4 +1,5 @@
 import Proofs.C15.Size
+import Proofs.C15.Text
 /-!
 # C15 — miniscript typing, compilation, read-back and satisfaction are consistent
 
@@ -41,5 +42,47 @@ example :
       (script .p2wsh (fun _ => List.replicate 20 0) n).map (·.length) = some 39 ∧
       (script .p2wsh (fun _ => List.replicate 20 0) n).map (·.drop 34) = some [173, 2, 144, 0, 178] := by
   decide
+
+/-- T2 (syntax): for EVERY well-shaped expression (well-typed or not, both dialects, sugar included:
+    `pk pkh t: l: u: and_n`), reading the written text gives the expression back. -/
+theorem parse_syntax_of_text (ctx : Ctx) (n : Ms) (hs : shaped ctx n = true) :
+    parseSyntax ctx (toText n) = some n :=
+  parseSyntax_toText ctx n hs
+
+/-- T2: `parse(str(node)) == node` for every expression `parse` can return at all: well-shaped,
+    every subexpression typed and of a size its context allows, and a "B" at the top. -/
+theorem parse_of_text (ctx : Ctx) (n : Ms) (hs : shaped ctx n = true)
+    (ht : allTyped ctx n = true) (hB : (typeOf ctx n).B = true) :
+    parse ctx (toText n) = some n := by
+  simp [parse, parseSyntax_toText ctx n hs, hs, ht, hB]
+
+/-- `parse` accepts nothing but what the type system accepts: every node of what it returns passed
+    `_assert_shape` and `_assert_typed`, and the whole is a "B". -/
+theorem parse_sound (ctx : Ctx) (s : List Char) (n : Ms) (h : parse ctx s = some n) :
+    shaped ctx n = true ∧ allTyped ctx n = true ∧ (typeOf ctx n).B = true := by
+  unfold parse at h
+  split at h
+  · cases h
+  · split at h
+    · rename_i hc
+      cases h
+      simpa [Bool.and_eq_true, and_assoc] using hc
+    · cases h
+
+/-- non-vacuity: `or_d(pk(K),and_v(v:pkh(K'),older(144)))` (three sugared spellings inside) is
+    shaped, all-typed and a B, and is written as that text. -/
+example :
+    let k : Key := 2 :: List.replicate 32 7
+    let k' : Key := 3 :: List.replicate 32 9
+    let n : Ms := .bin .or_d (.wrap .c (.pk_k k))
+      (.bin .and_v (.wrap .v (.wrap .c (.pk_h k'))) (.older 144))
+    shaped .p2wsh n = true ∧ allTyped .p2wsh n = true ∧ (typeOf .p2wsh n).B = true ∧
+      (toText n).take 9 = "or_d(pk(0".toList ∧
+      ((toText n).drop 76).take 13 = "and_v(v:pkh(0".toList := by
+  decide
+
+/-- non-vacuity of the parser itself, on a short text: `l:older(9)` is `or_i(0,older(9))`. -/
+example : parseSyntax .p2wsh "l:older(9)".toList = some (.bin .or_i .f0 (.older 9)) := by
+  decide +kernel
 
 end Props.C15
